@@ -28,8 +28,22 @@
       on an error) and histories of such calls interleaved with operations that
       do not concern the hash ([kmstep], [km_run]);
     - writePrivKeyToFile/encryptPrivFile and DecryptPrivKey (since 4423a4c a file
-      shorter than the nonce is an error, not a panic). *)
+      shorter than the nonce is an error, not a panic);
+    - the algorithm NAMES the signing entry points take ([parse_alg]: fiano's two
+      GetAlgFromString tables, ASCII names in any letter case) and the entry
+      points themselves ([sign_entry]: which names are parsed for which
+      generation/document, and what a null or unknown hash name -- "ALGNULL",
+      "ALGUNKNOWN" -- turns into: it is handed on as it is, so that the label
+      stored with the signature follows the scheme).
+
+    Key sizes and key kinds: key data is a byte string of ANY length (RSA: 4
+    exponent bytes + modulus, 260 bytes for RSA-2048, 388 for RSA-3072; ECC: x||y);
+    nothing in the glue depends on the length beyond the 4 exponent bytes, and
+    the digest placed in a KM / compared by the binding check is over ALL bytes
+    after them.  A key that is not an RSA key is refused by the binding check. *)
 From CSS Require Import Lib.Base.
+From Coq Require Strings.String Strings.Byte.
+Import String.StringSyntax.
 
 Definition bytes := list Z.
 
@@ -65,6 +79,39 @@ Definition AlgRSASSA : Z := 20.
 Definition AlgRSAPSS : Z := 22.
 
 Definition is_null (a : Z) : bool := (a =? AlgNull) || (a =? AlgUnknown).
+
+(** ** Algorithm names (bg.GetAlgFromString / cbnt.GetAlgFromString)
+
+    [strings.ToUpper(name)] followed by a switch.  Names are byte strings; the
+    model covers ASCII names (on other bytes ToUpper applies Unicode case
+    mapping, which the harness does not generate). *)
+Definition bs (s : String.string) : bytes :=
+  map (fun b => Z.of_N (Coq.Strings.Byte.to_N b)) (String.list_byte_of_string s).
+Arguments bs _%string_scope.
+
+Definition upper (b : Z) : Z := if (97 <=? b) && (b <=? 122) then b - 32 else b.
+
+(** names both generations know *)
+Definition alg_names_common : list (bytes * Z) :=
+  [(bs "ALGUNKNOWN", 0); (bs "RSA", 1); (bs "SHA1", 4); (bs "SHA256", 11);
+   (bs "ALGNULL", 16); (bs "RSASSA", 20)].
+(** names only the CBnT table knows (SHA512 has no name in either table) *)
+Definition alg_names_cbnt : list (bytes * Z) :=
+  [(bs "SHA384", 12); (bs "SM3", 18); (bs "RSAPSS", 22); (bs "ECDSA", 24);
+   (bs "ECC", 35); (bs "SM2", 27)].
+
+Fixpoint assoc_name (k : bytes) (t : list (bytes * Z)) : option Z :=
+  match t with
+  | [] => None
+  | (n, v) :: r => if zlist_eqb k n then Some v else assoc_name k r
+  end.
+
+Definition alg_names (g : gen) : list (bytes * Z) :=
+  match g with V10 => alg_names_common | V20 => alg_names_common ++ alg_names_cbnt end.
+
+(** GetAlgFromString of generation [g]; [None] = "algorithm name provided unknown" *)
+Definition parse_alg (g : gen) (name : bytes) : option Z :=
+  assoc_name (map upper name) (alg_names g).
 
 (** The digest NewSignatureData hard-wires per scheme (it ignores the requested
     hash algorithm): RSASSA signs SHA-256(msg), RSAPSS signs SHA-384(msg). *)
@@ -146,6 +193,32 @@ Section Glue.
   Definition signed_struct (g : gen) (d : doc) (m : M E) (sch req : Z) (sk : SK E) (sd : bytes) : M E :=
     let m0 := prep E g d m in
     store E g d m0 (pub E sk) (mk_sig sch (stored_hash g sch (req_hash d m0 req)) sd).
+
+  (** The signing ENTRY POINTS with the names the caller gives (bg-prov km-sign /
+      bpm-sign pass their command-line arguments through):
+      - SignKM(signAlgo, key): the scheme name is parsed with the table of the
+        manifest's generation; there is no hash name (CBnT: the KM's own
+        PubKeyHashAlg is handed to SetSignature, see [req_hash]);
+      - SignBPM(signAlgo, hashAlgo, key), BG 1.0: only the scheme name is parsed,
+        hashAlgo is never looked at (any string will do);
+      - SignBPM, CBnT: both names are parsed (scheme first), an unknown name is an
+        error; the parsed hash algorithm is handed to SetSignature AS IT IS --
+        in particular AlgNull / AlgUnknown stay null, so that fiano stores the
+        digest the scheme really used ([stored_hash]).
+      [Err 2] = a name was not known. *)
+  Definition sign_entry (g : gen) (d : doc) (m : M E) (sname hname : bytes) (sk : SK E) : outcome bytes :=
+    match parse_alg g sname with
+    | None => Err 2
+    | Some sch =>
+        match g, d with
+        | V20, BPM =>
+            match parse_alg V20 hname with
+            | None => Err 2
+            | Some req => sign_manifest V20 BPM m sch req sk
+            end
+        | _, _ => sign_manifest g d m sch 0 sk
+        end
+    end.
 
   (** The message VerifyKM/VerifyBPM check: a prefix of the RE-SERIALISATION of the parsed structure. *)
   Definition verified_message (g : gen) (d : doc) (m : M E) : bytes :=
